@@ -275,7 +275,7 @@ func forcedAttr(m *Model, el, key string) bool {
 		return true
 	case key == "target" && el == "a" && m.targetBlank:
 		return true
-	case key == "crossorigin" && m.crossOrigin && (el == "audio" || el == "img" || el == "link" || el == "script" || el == "video"):
+	case key == "crossorigin" && m.crossOrigin && (el == "audio" || el == "img" || el == "image" || el == "link" || el == "script" || el == "video"):
 		return true
 	case key == "sandbox" && el == "iframe" && m.sandbox != nil:
 		return true
@@ -341,7 +341,7 @@ func subjectToForced(m *Model, t tok) bool {
 		}
 	}
 	switch t.Name {
-	case "audio", "img", "link", "script", "video":
+	case "audio", "img", "image", "link", "script", "video":
 		if m.crossOrigin {
 			return true
 		}
